@@ -160,7 +160,13 @@ def as_matrix(vectorizables, length=None, return_template=False, verbose=False):
     # 1-based as we have the template vector set already
     i = 0
     for i, sample in enumerate(vectorizables, 1):
-        data[i] = sample.as_vector()
+        vector = sample.as_vector()
+        if not np.can_cast(vector.dtype, data.dtype, casting="safe"):
+            # the matrix takes its type from the first sample: a later sample
+            # of a wider type (floating point coordinates after integer
+            # ones) widens the matrix instead of being silently truncated
+            data = data.astype(np.promote_types(data.dtype, vector.dtype))
+        data[i] = vector
 
     # we have exhausted the iterable, but did we get enough items?
     if i != length - 1:  # -1
